@@ -57,6 +57,15 @@ def _default_stateful():
     return out
 
 
+def _rel_line(line, fnode):
+    """Line of a raise relative to the `def` line of the function under verification ("+12"): edits above the function do not
+    rename the obligation."""
+    try:
+        return f"+{int(line) - int(fnode.lineno)}"
+    except Exception:
+        return "?"
+
+
 class Registry:
     def __init__(self, repo_prefix="quantem"):
         self.repo_prefix = repo_prefix
@@ -234,8 +243,22 @@ class Contract:
             a_ = func_ast(real)[0].args
             names = [p.arg for p in a_.posonlyargs + a_.args]
             pv = getattr(s, "param_values", None) or {}  # explicit values for parameters whose name collides with NS bookkeeping (`mode`, `ctx`, `old`, ...)
-            args = [pv[n] if n in pv else getattr(s, n) for n in names if n in pv or hasattr(s, n)] + list(getattr(s, "varargs", ()))  # varargs: extra positionals for *args
-            kwargs = dict(getattr(s, "kwargs", {}))
+            # positional up to the first parameter the setup does not bind; the bound parameters after such a gap are passed by
+            # keyword (skipping the gap positionally would shift every later value into the wrong parameter)
+            args, kwargs, gap = [], dict(getattr(s, "kwargs", {})), False
+            for n in names:
+                if n in pv or hasattr(s, n):
+                    val = pv[n] if n in pv else getattr(s, n)
+                    if gap:
+                        kwargs.setdefault(n, val)
+                    else:
+                        args.append(val)
+                else:
+                    gap = True
+            if getattr(s, "varargs", ()):
+                if gap:
+                    raise OutOfSubset("contract setup binds *args but leaves an earlier positional parameter unbound")
+                args += list(s.varargs)  # varargs: extra positionals for *args
             for p_ in a_.kwonlyargs:  # keyword-only parameters are passed by keyword
                 if p_.arg in pv or hasattr(s, p_.arg):
                     kwargs.setdefault(p_.arg, pv[p_.arg] if p_.arg in pv else getattr(s, p_.arg))
@@ -251,7 +274,7 @@ class Contract:
                         matched = True
                         ctx.prove(f"raises:{EC.__name__}:only-when{sfx}", cond(s), kind="raises", assume_after=False)
                 if not matched and not self.any_raise_ok:
-                    ctx.prove(f"no-raise:{E.__name__}@{getattr(interp, 'cur_line', '?')}{sfx}", z3.BoolVal(False), kind="safety",
+                    ctx.prove(f"no-raise:{E.__name__}@{_rel_line(getattr(interp, 'cur_line', None), fnode)}{sfx}", z3.BoolVal(False), kind="safety",
                               assume_after=False, meta={"exc": repr(r.exc)})
                 if self.on_raise is not None:
                     for lab, t in self.labelled(self.on_raise(s, E)):
